@@ -142,6 +142,8 @@ pub struct Behav {
     /// times its controller has run (the library gives no hook between the inner dispatches, so
     /// the systems directly inside such a batch count their own runs since the controller's
     /// last start to know the iteration they are in)
+    /// `running_time()` of this system panics (a user callback failing inside `add`)
+    pub rt_panics: AtomicBool,
     pub is_multi: AtomicBool,
     pub multi_epoch: AtomicUsize,
     pub it_epoch: AtomicUsize,
@@ -405,6 +407,9 @@ impl<'a> System<'a> for HSys {
         }
     }
     fn running_time(&self) -> RunningTime {
+        if self.acc.shared.behav[self.acc.tag].rt_panics.load(SeqCst) {
+            panic!("harness running_time panic {}", self.acc.tag);
+        }
         self.time
     }
     fn accessor<'b>(&'b self) -> AccessorCow<'a, 'b, Self> {
